@@ -1,8 +1,56 @@
 import Ypv.Drv.Codec
-/-! Driver handler for C10 (stub: replaced by the module that models C10) -/
+import Ypv.Model.Anchors
+/-! Driver handler for C10: anchor-conflict resolution -/
 namespace Ypv.Drv.C10
 open Lean (Json)
+open Ypv Ypv.Drv Ypv.Anchors
 
-def handle (_op : String) (_j : Json) : Except String Json := throw "C10: driver not implemented yet"
+partial def anodeOfJson (j : Json) : Except String ANode := do
+  let k ← getStr j "k"
+  match k with
+  | "seq" => pure (.seq (← (← getArr j "i").toList.mapM anodeOfJson))
+  | "map" =>
+    let es ← (← getArr j "e").toList.mapM (fun e => do
+      match e with
+      | .arr #[kj, vj] => pure (← keyOfJson kj, ← anodeOfJson vj)
+      | _ => throw "map entry: [key, node] expected")
+    pure (.map es)
+  | _ =>
+    let v ← scalarOfJson j
+    match optStr j "a" with
+    | some n => pure (.scalar (some { name := n, oid := (← j.getObjValAs? Nat "o") }) v)
+    | none => pure (.scalar none v)
+
+partial def anodeToJson : ANode → Json
+  | .scalar t v =>
+    match t with
+    | some t => ((scalarToJson v).setObjVal! "a" (Json.str (l2s t.name))).setObjVal! "o" (Json.num (Lean.JsonNumber.fromNat t.oid))
+    | none => scalarToJson v
+  | .seq items => Json.mkObj [("k", "seq"), ("i", Json.arr (items.map anodeToJson).toArray)]
+  | .map es => Json.mkObj [("k", "map"),
+      ("e", Json.arr (es.map (fun (k, n) => Json.arr #[keyToJson k, anodeToJson n])).toArray)]
+
+def modeOf : String → Except String Mode
+  | "stop" => pure .stop | "left" => pure .left | "right" => pure .right | "rename" => pure .rename
+  | s => throw s!"mode {s}"
+
+def handle (op : String) (j : Json) : Except String Json := do
+  match op with
+  | "resolve" =>
+    let mode ← modeOf (← getStr j "mode")
+    let l ← anodeOfJson (← j.getObjVal? "l")
+    let r ← anodeOfJson (← j.getObjVal? "r")
+    match resolve mode l r with
+    | .ok (l', r') => pure (Json.mkObj [("ok", Json.arr #[anodeToJson l', anodeToJson r']),
+        ("defs", Json.arr #[Json.arr ((emittedDefs l').map (fun s => Json.str (l2s s))).toArray,
+                            Json.arr ((emittedDefs r').map (fun s => Json.str (l2s s))).toArray])])
+    | .error e => pure (Json.mkObj [("err", errToJson e)])
+  | "unique" =>
+    let a := s2l (← getStr j "anchor")
+    let known := (← getArr j "known").toList.filterMap (fun x => match x with | .str s => some (s2l s) | _ => none)
+    match calcUnique a known with
+    | some f => pure (Json.mkObj [("ok", Json.str (l2s f))])
+    | none => pure (Json.mkObj [("err", "fuel")])
+  | _ => throw s!"C10: unknown op {op}"
 
 end Ypv.Drv.C10
